@@ -76,8 +76,8 @@ fn sleep_ms(ms: u32) {
 pub fn default_runs(prop: &str, tier: &str) -> (u64, u64) {
     // (Tier A runs, Tier B runs)
     match (prop, tier) {
-        ("C03", "quick") => (1500, 150),
-        ("C03", _) => (60000, 5000),
+        ("C03", "quick") => (40000, 600),
+        ("C03", _) => (2000000, 20000),
         ("C10", "quick") => (6000, 600),
         ("C10", _) => (200000, 20000),
         ("C14", "quick") => (30000, 3000),
